@@ -1,7 +1,7 @@
 (* C14/Properties.v — property theorems only: statement, `exact`, Print Assumptions. *)
 From Coq Require Import ZArith List Bool.
 From C13 Require Model.
-From C14 Require Import Generated Model ServerModel Wire Spec Proofs Reflect ServerProofs WireProofs.
+From C14 Require Import Generated Model ServerModel Wire KlongLoop Spec Proofs Reflect ServerProofs WireProofs KlongLoopProofs.
 Import ListNotations.
 
 (* the facts the model follows, as regenerated from klongpy/sys_fn_ipc.py on this run *)
@@ -165,6 +165,46 @@ Print Assumptions C14_server_baseexception_outside_domain.
 Example C14_server_example :
   serve gen_sflags [OValue true; OFunction; ORaise CStopIter; OValue true] = [SvResponse false; SvResponse true; SvTeardown; SvClosed].
 Proof. reflexivity. Qed.
+
+(* ---- the connection used as a CALLER from the klong-loop thread (server pushing to a client; KlongLoop.v) *)
+Definition gen_kflags : kflags := mkKF (negb srv_callbacks_inline) run_fails_pending_before_callbacks.
+(* the ordering assumption, pinned by the translator: the .srv.o/.srv.c/.srv.e callbacks do not wait for the klong loop,
+   or the pending futures are failed before on_error is awaited *)
+Definition gen_kflags_ok : kflags_ok gen_kflags = true := eq_refl.
+
+(* ANY number of pending callers, on the klong loop or on other threads: once the connection is lost (_run's handler
+   awaits on_error, THEN the finally fails the pending futures, THEN on_close) the client can always take a step until
+   every caller has returned and _run has exited; the invariant is established by the loss and kept; every step does part
+   of the remaining work (runs are finite): nobody is left waiting *)
+Theorem C14_klong_loss_no_caller_left_waiting :
+  (forall s s', kstep gen_kflags s KLoss = Some s' -> J gen_kflags s') /\
+  (forall s a s', J gen_kflags s -> In a (internal_labels s) -> kstep gen_kflags s a = Some s' -> J gen_kflags s') /\
+  (forall s, J gen_kflags s -> kfinal s = false -> stuck gen_kflags s = false) /\
+  (forall s a s', after_loss s = true -> In a (internal_labels s) -> kstep gen_kflags s a = Some s' -> kmeasure s' < kmeasure s).
+Proof.
+  exact (conj (kloss_J gen_kflags) (conj (loss_invariant gen_kflags) (conj (fun s => loss_progress gen_kflags s gen_kflags_ok) (loss_measure gen_kflags)))).
+Qed.
+Print Assumptions C14_klong_loss_no_caller_left_waiting.
+
+(* the seeded ordering -- callbacks dispatched to the klong loop and awaited while the pending futures are failed only
+   afterwards -- deadlocks with one call pending from the klong loop *)
+Theorem C14_callbacks_on_klong_loop_refuted :
+  exists s, kstep (mkKF true false) (mkKS [mkK true CWait] RListening) KLoss = Some s /\
+            stuck (mkKF true false) s = true /\ kfinal s = false /\ kcallers s = [mkK true CWait].
+Proof. exact callbacks_on_klong_loop_refuted. Qed.
+
+(* KNOWN FINDING (pinned tree, whatever the flags): a call pending from the klong loop and a request of the peer read
+   before its response: the listener awaits the evaluation on the klong loop, the klong loop is blocked in call() *)
+Theorem C14_klong_reentrancy_refuted : forall fl,
+  exists s, kstep fl (mkKS [mkK true CWait] RListening) KReq = Some s /\
+            (forall a, kstep fl s a = None) /\ kcallers s = [mkK true CWait].
+Proof. exact reentrancy_refuted. Qed.
+
+(* outside that class: with callers on other threads only, a request of the peer is always evaluated and answered *)
+Theorem C14_klong_dispatch_progress : forall s, kph s = RDispatch -> forallb (fun c => negb (on_klong c)) (kcallers s) = true ->
+  kstep gen_kflags s KDispatchDone = Some (mkKS (kcallers s) RListening).
+Proof. exact (dispatch_progress gen_kflags). Qed.
+Print Assumptions C14_klong_dispatch_progress.
 
 (* Non-vacuity. A maximal run of two calls and a close() with responses out of order; R8's leak is reachable. *)
 Example C14_all_example :
